@@ -9,6 +9,10 @@ C11 requests.
           const `-` or `<bytes>.<digest>`
   op      `<builtin>:<customhex>:<version>:<T|N><optiontype>~<slot>.<hex>…:<customoptionshex>:<in>/<in>…:<out>/<out>…`
   answer  `<ok|bad|pre> preserved=<n> absorbed=<n> folded=<n> dead=<n> ethosu=<n> n=<problems> <kind>|<detail> ~ …`
+`ethosuverbatim s.tensors=… s.inputs=… s.outputs=… s.ops=… o.tensors=… o.inputs=… o.outputs=… o.ops=…`  (same graph tokens)
+  second generation: every Ethos-U operator of the compiled input `s` reappears verbatim in the output `o`;
+  answer  `<ok|bad|pre> ethosu_in=<n> ethosu_out=<n> new=<n> n=<problems> <kind>|<detail> ~ …`  (`pre`: the compiled input is
+  outside the domain of `check` — duplicate tensor names —, operators cannot be identified by result names)
 `reread w=<tok>,… v=<tok>,…`   the output file as the plain walker / as Vela's reader sees it; answer `same <n>` or `differ <pos> <w> <v>`
 `alignidx from=<i>/<i>|<w>|<b> to=<i>|<w>|<b> n=<len>`   model of reader_util.align_inputs_indices applied to [0..n);
   answer `ok <perm>` or `err:<kind>`
@@ -112,6 +116,20 @@ def handle : List String → Option String
     if !v.pre.isEmpty then some (s!"pre {stats} n={v.pre.length} " ++ showProblems v.pre)
     else if v.problems.isEmpty then some (s!"ok {stats} n=0")
     else some (s!"bad {stats} n={v.problems.length} " ++ showProblems v.problems)
+  | "ethosuverbatim" :: toks => do
+    -- second generation: `s.*` = the compiled model that was the input, `o.*` = what the compiler wrote for it
+    let src ← parseGraph toks "s"
+    let out ← parseGraph toks "o"
+    -- optional: arena offsets per tensor index, `s.plan=<o>,<o>…` and one list per plan entry of the output `o.plans=<o>,<o>…;<o>,…`
+    let splan ← parseInts (splitNE ((kv toks "s.plan").getD "") ",")
+    let oplans ← (splitNE ((kv toks "o.plans").getD "") ";").mapM fun l => parseInts (splitNE l ",")
+    let ps := ethosuVerbatimProblems src out ++ (if (kv toks "s.plan").isSome then ethosuPlacementProblems src out splan oplans else [])
+    let stats := s!"ethosu_in={(src.ops.filter isEthosU).length} ethosu_out={(out.ops.filter isEthosU).length} new={ethosuNew src out}"
+    -- same domain as `check`: operators are identified by their result names, so a compiled input whose tensor names are not
+    -- unique (a source with duplicate names keeps them) is outside the domain of the clause, not a violation
+    let pre := wellFormedProblems src ++ topoProblems src
+    if !pre.isEmpty then some (s!"pre {stats} n={pre.length} " ++ showProblems pre)
+    else if ps.isEmpty then some s!"ok {stats} n=0" else some (s!"bad {stats} n={ps.length} " ++ showProblems ps)
   | "reread" :: toks => do
     let w := (splitNE ((kv toks "w").getD "") ",").map normTok
     let v := (splitNE ((kv toks "v").getD "") ",").map normTok
